@@ -489,7 +489,9 @@ int main(int argc, char **argv)
             } else if (!strcmp(opn, "FREE")) {
                 if (shim_has_free) {
                     if (s->block) drop_block(s);
-                    g_in_gen = 1; shim_free(s->st); g_in_gen = 0;
+                    arm(s, s->st, NULL, 0);   /* fresh tick budget and configuration pointer (a stale one may be a freed clone) */
+                    if (setjmp(g_jb) == 0) { g_in_gen = 1; shim_free(s->st); g_in_gen = 0; }
+                    else { report_abort(g_abort); s->dead = 1; }
                     int nb = 0; size_t by = 0;
                     for (int i = 0; i < g_ntrack; i++) if (g_track[i].sid == sid) { nb++; by += g_track[i].n; }
                     if (nb) { printf("L %ld %d %d %zu\n", g_op, sid, nb, by); track_purge(sid); }
